@@ -27,7 +27,7 @@ var (
 )
 
 func c11unnamed(c *fw.Check) {
-	entNames := []string{"", "0", "1", "2", "a"}  // "" = unnamed
+	entNames := []string{"", "0", "1", "2", "a"}      // "" = unnamed
 	cdNames := []string{"", "0", "1", "2", "00", "a"} // "" = no comdat
 	type ent struct {
 		fn       bool
